@@ -302,3 +302,42 @@ Proof. vm_compute. repeat split. Qed.
 Example C19_ex_to_f32 : ToPrimitive_float true F32 8 false [255; 255] = Ret (Some 0x477fff00) /\
                         ToPrimitive_float false F64 8 true [255; 255] = Ret (Some 0xbff0000000000000).
 Proof. vm_compute. repeat split. Qed.
+(* ---- tie to the source, ToPrimitive: to_int! of /repo/src/buint/numtraits.rs (to_u8 .. to_isize for $BUint<N>; $int = every
+   primitive integer type), to_int! (to_i8 .. to_isize for $BInt<N>; signed only: ps = true) and to_uint! (to_u8 .. to_usize for
+   $BInt<N>; unsigned only: ps = false) of /repo/src/bint/numtraits.rs (pb = <$int>::BITS, ps = signedness; instantiation lists
+   `to_<t> -> <t>` and the enclosing `impl ToPrimitive for ..` checked; the accumulator handled as its pb-bit pattern, vocabulary
+   Model/ImpConv.v), REGENERATED on every run (Generated/ConvGen.v, tools/rs2v_conv.py), compute exactly the model's U_to_int /
+   I_to_int / I_to_uint, for both values of the model's overflow-check flag, every power-of-two digit width and a budget > N. ---- *)
+From Bnum.Model Require Import Imp.
+From Bnum.Generated Require Import ConvGen.
+From Bnum.Proofs Require Import ConvGenTieC19.
+Theorem C19_conv_rs_matches_model dbg w lg : 0 <= lg -> w = 2 ^ lg ->
+  forall n pb ds fuel, 0 < pb -> length ds = n -> (S n <= fuel)%nat ->
+  (forall ps, ConvGen.U_to_int w (Z.of_nat n) fuel pb ps ds =
+     match NumConv.U_to_int dbg pb ps w ds with Ret r => Done r | Panic => Panicked end) /\
+  ConvGen.I_to_int w (Z.of_nat n) fuel pb true ds =
+    match NumConv.I_to_int dbg pb w ds with Ret r => Done r | Panic => Panicked end /\
+  ConvGen.I_to_uint w (Z.of_nat n) fuel pb false ds =
+    match NumConv.I_to_uint dbg pb w ds with Ret r => Done r | Panic => Panicked end.
+Proof. exact (conv_C19_match_model dbg w lg). Qed.
+Print Assumptions C19_conv_rs_matches_model.
+(* ---- tie to the source, FromPrimitive: from_u64 / from_u128 / from_i64 / from_i128 of `impl FromPrimitive for $BUint<N>` (/repo/src/buint/numtraits.rs),
+   from_uint! (from_u8 .. from_usize) and from_int! (from_i8 .. from_isize) of `impl FromPrimitive for $BInt<N>`
+   (/repo/src/bint/numtraits.rs; one invocation `(<t>, from_<t>)` per type, checked), REGENERATED on every run, compute exactly the
+   model's U_from_uN / U_from_iN (pb = 64 / 128) / I_from_uN / I_from_iN, for both values of the debug flag and a budget >= pb. ---- *)
+Theorem C19_conv_from_rs_matches_model dbg w lg : 0 <= lg -> w = 2 ^ lg ->
+  forall n int,
+  (forall fuel, (64 <= fuel)%nat -> ConvGen.U_from_u64 w (Z.of_nat n) fuel int =
+     match NumConv.U_from_uN dbg 64 w n int with Ret r => Done r | Panic => Panicked end) /\
+  (forall fuel, (128 <= fuel)%nat -> ConvGen.U_from_u128 w (Z.of_nat n) fuel int =
+     match NumConv.U_from_uN dbg 128 w n int with Ret r => Done r | Panic => Panicked end) /\
+  (forall fuel, (64 <= fuel)%nat -> ConvGen.U_from_i64 w (Z.of_nat n) fuel int =
+     match NumConv.U_from_iN dbg 64 w n int with Ret r => Done r | Panic => Panicked end) /\
+  (forall fuel, (128 <= fuel)%nat -> ConvGen.U_from_i128 w (Z.of_nat n) fuel int =
+     match NumConv.U_from_iN dbg 128 w n int with Ret r => Done r | Panic => Panicked end) /\
+  (forall pb fuel, 0 < pb -> (Z.to_nat pb <= fuel)%nat -> ConvGen.I_from_uint w (Z.of_nat n) fuel pb int =
+     match NumConv.I_from_uN dbg pb w n int with Ret r => Done r | Panic => Panicked end) /\
+  (forall pb fuel, 0 < pb -> (Z.to_nat pb <= fuel)%nat -> ConvGen.I_from_int w (Z.of_nat n) fuel pb int =
+     match NumConv.I_from_iN dbg pb w n int with Ret r => Done r | Panic => Panicked end).
+Proof. exact (conv_C19_from_match_model dbg w lg). Qed.
+Print Assumptions C19_conv_from_rs_matches_model.
